@@ -72,7 +72,6 @@ theorem Inv2b.step_g5 (I : Inv1 c s) (J : Inv2 c s) (B : Inv2b s) (h : StepCase 
     have hc3 : p < s.g.cells.length := Q.stAt_some_lt _ _ _ hst
     clear l4; b_close
   all_goals (clear l4; try b_close)
-  all_goals (trace_state; sorry)
 
 set_option maxHeartbeats 4000000 in
 theorem Inv2b.step_g2u (I : Inv1 c s) (J : Inv2 c s) (B : Inv2b s) (h : StepCase c s t lb s') :
@@ -91,7 +90,6 @@ theorem Inv2b.step_g2u (I : Inv1 c s) (J : Inv2 c s) (B : Inv2b s) (h : StepCase
   clear I J B hwf
   cases h
   all_goals (try b_close)
-  all_goals (trace_state; sorry)
 
 set_option maxHeartbeats 4000000 in
 theorem Inv2b.step_l9 (I : Inv1 c s) (J : Inv2 c s) (B : Inv2b s) (h : StepCase c s t lb s') :
@@ -133,7 +131,6 @@ theorem Inv2b.step_l9 (I : Inv1 c s) (J : Inv2 c s) (B : Inv2b s) (h : StepCase 
     clear l4
     cases ctx <;> b_close
   all_goals (clear l4; try b_close)
-  all_goals (trace_state; sorry)
 
 end
 end Babylon.Exec
